@@ -30,6 +30,7 @@ type Plan struct {
 	RevAlias bool   `json:"rev_alias,omitempty"` // additionally reverse-call through a tagged field that resolves via a client-side alias
 	RevBurst int    `json:"rev_burst,omitempty"` // additionally make this many concurrent reverse calls with 1 MiB arguments and wait for all
 	ReactMs  int    `json:"react_ms,omitempty"`  // time the handler keeps running after its ctx was cancelled
+	NaNAt    int    `json:"nan_at,omitempty"`    // SubFloat: index of the element that is NaN (0 = none... use -1 for none)
 	Junk     string `json:"junk,omitempty"`      // ignored by the handler; inflates the request (longer decode window)
 
 	// subscriptions
@@ -409,6 +410,53 @@ func (a *TokAPI) SubStr(ctx context.Context, tok string, plan Plan) (<-chan stri
 	return subGeneric(a, ctx, tok, plan, func(seq int) string { return StrItem(tok, seq) })
 }
 
+// SubFloat streams float64(seq) but replaces the element at index plan.Early+1.. no: at index NaNAt with NaN, which
+// encoding/json cannot encode: that one element cannot travel, everything else (and every other stream) must.
+func (a *TokAPI) SubFloat(ctx context.Context, tok string, plan Plan) (<-chan float64, error) {
+	return subGeneric(a, ctx, tok, plan, func(seq int) float64 {
+		if seq == plan.NaNAt {
+			return math.NaN()
+		}
+		return float64(seq) + 0.5
+	})
+}
+
+// Rich is an element type with optional fields, a map, a slice and a pointer whose presence varies per element.
+type Rich struct {
+	Tok  string         `json:"tok"`
+	Seq  int            `json:"seq"`
+	Opt  string         `json:"opt,omitempty"`
+	M    map[string]int `json:"m,omitempty"`
+	S    []int          `json:"s,omitempty"`
+	P    *Inner         `json:"p,omitempty"`
+	Flag bool           `json:"flag,omitempty"`
+}
+
+func RichItem(tok string, seq int) Rich {
+	r := Rich{Tok: tok, Seq: seq}
+	if seq%2 == 0 {
+		r.Opt = fmt.Sprintf("opt-%d", seq)
+	}
+	if seq%3 == 0 {
+		r.M = map[string]int{fmt.Sprintf("k%d", seq): seq, "common": seq}
+	}
+	if seq%3 == 1 {
+		r.S = make([]int, 1+seq%4)
+		for i := range r.S {
+			r.S[i] = seq*10 + i
+		}
+	}
+	if seq%4 == 1 {
+		r.P = &Inner{N: int64(seq), S: "p"}
+	}
+	r.Flag = seq%5 == 0
+	return r
+}
+
+func (a *TokAPI) SubRich(ctx context.Context, tok string, plan Plan) (<-chan Rich, error) {
+	return subGeneric(a, ctx, tok, plan, func(seq int) Rich { return RichItem(tok, seq) })
+}
+
 func IntItem(tok string, seq int) int64 {
 	var h int64
 	for _, c := range tok {
@@ -518,13 +566,15 @@ func (w *World) CtxErrDuringStream(tok string) []string {
 
 // TokClient is the client-side proxy struct.
 type TokClient struct {
-	Call   func(ctx context.Context, tok string, plan Plan) (Result, error)
-	Notify func(ctx context.Context, tok string, plan Plan) error           `notify:"true"`
-	Retry  func(ctx context.Context, tok string, plan Plan) (Result, error) `retry:"true" rpc_method:"Tok.Call"`
-	Sub    func(ctx context.Context, tok string, plan Plan) (<-chan Item, error)
-	SubInt func(ctx context.Context, tok string, plan Plan) (<-chan int64, error)
-	SubStr func(ctx context.Context, tok string, plan Plan) (<-chan string, error)
-	NoCtx  func(tok string, plan Plan) (Result, error) `rpc_method:"Tok.Call"`
+	Call     func(ctx context.Context, tok string, plan Plan) (Result, error)
+	Notify   func(ctx context.Context, tok string, plan Plan) error           `notify:"true"`
+	Retry    func(ctx context.Context, tok string, plan Plan) (Result, error) `retry:"true" rpc_method:"Tok.Call"`
+	Sub      func(ctx context.Context, tok string, plan Plan) (<-chan Item, error)
+	SubInt   func(ctx context.Context, tok string, plan Plan) (<-chan int64, error)
+	SubStr   func(ctx context.Context, tok string, plan Plan) (<-chan string, error)
+	SubFloat func(ctx context.Context, tok string, plan Plan) (<-chan float64, error)
+	SubRich  func(ctx context.Context, tok string, plan Plan) (<-chan Rich, error)
+	NoCtx    func(tok string, plan Plan) (Result, error) `rpc_method:"Tok.Call"`
 }
 
 // RevHandler is the client-side handler reverse calls land on.
